@@ -208,7 +208,7 @@ fn main() {
     runner::main(
         Property {
             id: "C09",
-            rule: "Ordered (source, target) type pairs: all 1024 pairs of the 32 sub-table bnum types (4 digit types; widths 8..192 incl. 24, 40, 48, 136, 144, 160; both directions of every digit-size ratio), 768 bnum<->primitive pairs, bool/char into every sub-table type, 10 pairs involving 320..8192-bit types, the 144 primitive->primitive impls of the same trait, and cast_signed/cast_unsigned/to_bits/from_bits on all 43 configurations. Source values: structured source patterns, target-shaped values shifted by k*2^Wt and wrapped into the source (bits above the target width, sign extension across digit boundaries), and +-2^(Wt-1), +-2^Wt, 2^(Wt+1) +- 2. Oracle: decode the source to the reference integer (zero- or sign-extension is just 'the value'), reduce modulo 2^(target BITS), compare the digit bytes; primitive<->primitive against `as`; never panics (catch_unwind). NON-TRIVIAL: negative source into a wider target, or value outside the target range, or different digit sizes. distinct = distinct (profile, job, inputs) by 64-bit hash. 8- and 16-bit primitive sources enumerated exhaustively for every primitive target. SIBLINGS job (per configuration): num_traits::AsPrimitive::as_ (bnum -> every primitive integer and float, every primitive / char / bool -> bnum, bnum -> bnum within the digit family) is compared with the As cast, so that a regression confined to that entry point is reported here as well as by C19.",
+            rule: "Ordered (source, target) type pairs: all 1024 pairs of the 32 sub-table bnum types (4 digit types; widths 8..192 incl. 24, 40, 48, 136, 144, 160; both directions of every digit-size ratio), 768 bnum<->primitive pairs, bool/char into every sub-table type, 10 pairs involving 320..8192-bit types, the 144 primitive->primitive impls of the same trait, and cast_signed/cast_unsigned/to_bits/from_bits on all 51 configurations. Source values: structured source patterns, target-shaped values shifted by k*2^Wt and wrapped into the source (bits above the target width, sign extension across digit boundaries), and +-2^(Wt-1), +-2^Wt, 2^(Wt+1) +- 2. Oracle: decode the source to the reference integer (zero- or sign-extension is just 'the value'), reduce modulo 2^(target BITS), compare the digit bytes; primitive<->primitive against `as`; never panics (catch_unwind). NON-TRIVIAL: negative source into a wider target, or value outside the target range, or different digit sizes. distinct = distinct (profile, job, inputs) by 64-bit hash. 8- and 16-bit primitive sources enumerated exhaustively for every primitive target. SIBLINGS job (per configuration): num_traits::AsPrimitive::as_ (bnum -> every primitive integer and float, every primitive / char / bool -> bnum, bnum -> bnum within the digit family) is compared with the As cast, so that a regression confined to that entry point is reported here as well as by C19.",
             assumptions: &[
                 "digits()/from_digits()/to_bits()/from_bits() and to_le_bytes/from_le_bytes of primitives are the trusted observation channel",
                 "usize/isize are 64 bits wide on this target",
